@@ -216,7 +216,8 @@ class PadSys(HSystem):
             return []
         if o['done']:
             return [('after', 0), ('after', 1)]
-        return [('cont', 0), ('cont', 1), ('cont', 2), ('final', 0), ('final', 1), ('final', 2), ('bad-partial',), ('bad-bitlen',)]
+        return [('cont', 0), ('cont', 1), ('cont', 2), ('final', 0), ('final', 1), ('final', 2), ('bad-partial',), ('bad-bitlen',),
+                ('chain', 1, 2), ('chain', 2, 1), ('chain-after-final', 1)]
 
     def msg(self, o, nbytes):
         m = ramp(o['pos'] + nbytes, 11, 1)[o['pos']:]
@@ -243,6 +244,29 @@ class PadSys(HSystem):
             o['done'] = True
             for b in p.iterblocks(m):
                 out.append((bytes(b), p.bitcnt))
+        elif t == 'chain':
+            # both calls are made before either result is consumed (e.g. itertools.chain of two iterblocks calls)
+            m1 = self.msg(o, ev[1] * self.blen)
+            o['pos'] += len(m1)
+            n = {0: 0, 1: self.blen // 2, 2: self.blen + self.blen // 2}[ev[2]]
+            m2 = self.msg(o, n)
+            o['last'] = ('final', m1 + m2, len(o['fed']))
+            o['fed'] += m1 + m2
+            o['done'] = True
+            g1 = p.iterblocks(m1, padding=False)
+            g2 = p.iterblocks(m2)
+            for g in (g1, g2):
+                for b in g:
+                    out.append((bytes(b), p.bitcnt))
+        elif t == 'chain-after-final':
+            m1 = self.msg(o, self.blen // 2)
+            o['last'] = ('after',)
+            o['fed'] += m1
+            o['done'] = True
+            g1 = p.iterblocks(m1)
+            g2 = p.iterblocks(self.msg(o, self.blen))      # requested before the final block has been produced
+            list(g1)
+            out = list(g2)                                  # ... but consumed after it: must be refused
         elif t == 'bad-partial':
             o['refused'] = True
             o['last'] = ('refuse',)
@@ -311,7 +335,7 @@ def subchecks():
         Sub('malformed', pts_malformed, run_malformed, engine='D',
             bound='PKCS#7 and X9.23 remove on every whole-block string for block length 1 (1-2 blocks) and 2 (1 block: all 65536), and on every string over {0,1,2,3,blen-1,blen,blen+1,255} for block length 3 (1-2 blocks), 4 (1 block) and a product family for 8'),
         hsub('histories', systems, lambda tier: 4 if tier == 'thorough' else 3,
-             bound='one pad object per scheme/geometry; events: continuation of 0/1/2 blocks, final of 0/half/1 block, two refused requests, calls after the final block; all histories to depth 3 (thorough 4), deduplicated by (bitcnt,padcnt,padflag)'),
+             bound='one pad object per scheme/geometry; events: continuation of 0/1/2 blocks, final of 0/half/1 block, two refused requests, calls after the final block, two calls made before either is consumed; all histories to depth 3 (thorough 4), deduplicated by (bitcnt,padcnt,padflag)'),
     ]
 
 
